@@ -51,13 +51,10 @@ func gormFrame(frames []string) string {
 		if isStd(f) {
 			continue
 		}
-		if strings.HasPrefix(f, "gorm.io/gorm") && !strings.Contains(f, "utils/simhook") {
+		if strings.HasPrefix(f, "gorm.io/gorm") && !strings.Contains(f, "utils/simhook") && !strings.Contains(f, "gorm.io/driver") {
 			return strings.TrimPrefix(f, "gorm.io/gorm/")
 		}
-		if strings.Contains(f, "utils/simhook") {
-			continue
-		}
-		return ""
+		return "" // first non-standard-library frame is simulator code (harness, scheduler, simhook forwarding)
 	}
 	return ""
 }
